@@ -329,6 +329,15 @@ func targets() []*target {
 			params: []string{"(p_present p_useJSON p_useColor : bool)", "(p_level g_deflevel : Z)"},
 			result: "bool * bool * Z", final: "(js, color, level)"},
 
+		// ---- the derived log/slog handlers (C15): handler4LogSlog.with.  s.ops is a slice of HEAP cells
+		// (array, offset, length, capacity) and heap_ the arrays, so that sharing of a backing array between the
+		// handlers derived from one parent is expressible ----
+		{pkg: slogPkg, recv: "handler4LogSlog", fn: "with", coq: "handler_with", file: "Handlers", strict: true, fallback: "AdaptRef.handler_with_ref",
+			comment: "(returns (the new handler, the heap); None = panic)", panicT: "None", retfmt: "Some (%s)", effects: []string{"heap_"},
+			tymap:  map[string]string{"[]handlerOp": "hslice", "handlerOp": "hop", "handler4LogSlog": "hnd", "*handler4LogSlog": "hnd", "Logger": "lgr"},
+			params: []string{"(h_zero : hop)", "(f_growcap : nat -> nat)", "(s_Logger : lgr)", "(s_ops : hslice)", "(op : hop)", "(heap_ : heap hop)"},
+			result: "option (hnd * heap hop)", final: "None"},
+
 		// ---- RegisterLevel (C17): the options arrive resolved (the regPack fields after every opt ran: o_*);
 		// the seven tables are the state the function hands back; a map write overwrites (mapZ_set / mapB_set) ----
 		{pkg: slogPkg, recv: "", fn: "RegisterLevel", coq: "register", file: "Registry", strict: true, fallback: "RegRef.register_ref",
@@ -447,6 +456,7 @@ var genFiles = [][2]string{
 	{"Buffers", "Require Import Verif.Model.Base Verif.Model.Decision Verif.Model.GoSem Verif.Model.Utf8 Verif.Model.Buffer Verif.Model.BufRef."},
 	{"Registry", "Require Import Verif.Model.Base Verif.Model.Decision Verif.Model.Dec Verif.Model.GoSem Verif.Model.Level Verif.Model.RegRef."},
 	{"Loggers", "Require Import Verif.Model.Base Verif.Model.Decision Verif.Model.GoSem Verif.Model.TreeRef."},
+	{"Handlers", "Require Import Verif.Model.Base Verif.Model.Decision Verif.Model.GoSem Verif.Model.AdaptRef."},
 	{"LevelNames", "Require Import Verif.Model.Base Verif.Model.Decision Verif.Model.Dec Verif.Model.GoSem Verif.Model.LevelRef."},
 }
 
